@@ -8,9 +8,11 @@ import (
 	"fmt"
 	"sort"
 	"strings"
+	"time"
 
 	"cqosverif/explore"
 	"cqosverif/vrt"
+	"cqosverif/vrt/vcontext"
 )
 
 // Cfg is the flat configuration record of every harness family; unused fields
@@ -47,7 +49,10 @@ type Cfg struct {
 	OutCap  int     `json:"outcap,omitempty"`  // v1: capacity of the user supplied output channel
 	FbCap   int     `json:"fbcap,omitempty"`   // v1: capacity of the user supplied feedback channel
 	Tail    int64   `json:"tail,omitempty"`    // join: producer pause before closing (units)
+	NoErr   bool    `json:"noerr,omitempty"`   // nobody reads Err()
+	UserCtx bool    `json:"userctx,omitempty"` // v1: Opts.Ctx is a user-defined Context implementation (not one made by package context)
 
+	Deep       int  `json:"deep,omitempty"`  // history-keyed (no merging by state) exploration cut at this depth: sound against hidden loop-carried locals
 	Cross      int  `json:"cross,omitempty"`      // key-mode cross-check: depth of the history-keyed run
 	NoFallback bool `json:"nofallback,omitempty"` // no iterative preemption bounding after an unfinished unbounded run
 	KeyHistory bool `json:"keyhistory,omitempty"`
@@ -120,5 +125,34 @@ type failer struct {
 func (f *failer) fail(prop string, format string, args ...any) {
 	if want(f.cfg, prop) {
 		f.w.Fail(prop+": "+format, args...)
+	}
+}
+
+// userCtx is a Context implemented by the user of the library (legal: Opts.Ctx
+// is the interface type). Deriving a cancellable context from it needs a
+// watcher goroutine, which must end with the discipline like any other.
+type userCtx struct {
+	done   chan struct{}
+	closed bool
+}
+
+func (u *userCtx) Deadline() (time.Time, bool) { return time.Time{}, false }
+func (u *userCtx) Done() <-chan struct{}       { return u.done }
+func (u *userCtx) Value(any) any               { return nil }
+func (u *userCtx) Err() error {
+	if u.closed {
+		return vcontext.Canceled
+	}
+	return nil
+}
+
+func newUserCtx() (vcontext.Context, vcontext.CancelFunc) {
+	u := &userCtx{done: vrt.MakeChan[struct{}](0)}
+	vrt.NameChan[struct{}](u.done, "userctx")
+	return u, func() {
+		if !u.closed {
+			u.closed = true
+			vrt.Close(u.done)
+		}
 	}
 }
